@@ -176,6 +176,9 @@ def gen_fit(rng):
     return s, summ, fails, robust, err
 
 
+GATE_CASES = []
+
+
 def cviart_gate(rng):
     """CVIART: whenever the index is defined for the labelling before the step and for the candidate labelling, the
     reset function is (candidate index strictly better); a sample ends a step in an existing cluster only after a
@@ -269,6 +272,22 @@ def cviart_gate(rng):
                         + ("never passed" if mine else "was never consulted for that assignment"), "replay": summ}
     if [int(v) for v in est.labels_] != [st["label"] for st in steps[-len(X):]]:
         return {"signature": "CVIART/gate", "text": "labels_ is not the outcome of the last epoch's steps", "replay": summ}
+    # every recorded call for the model of the gate (corr/RunGate.v): labelling before, candidate, both index values
+    for st in steps:
+        if st["index"] is None or min(int(v) for v in st["labs"]) < 0:
+            continue
+        for c_, r in st["calls"][:3]:
+            labs = st["labs"]
+            new_l = labs.copy(); new_l[st["index"]] = c_
+            old = new = 0.0
+            if st["ncat"] >= 2 and defined(labs) and defined(new_l):
+                old, new = float(fn(X, labs)), float(fn(X, new_l))
+                if not (np.isfinite(old) and np.isfinite(new)):
+                    continue
+            GATE_CASES.append((f"(mkGCase {st['ncat']}%nat {natlist([int(v) for v in labs])} {int(st['index'])}%nat {int(c_)}%nat {coq_bool(validity == 2)} "
+                               f"{q(old)} {q(new)} {coq_bool(r)})",
+                               {"kind": "CVIART.CVI_match call", "categories": st["ncat"], "labels_before": [int(v) for v in labs], "sample": int(st["index"]), "candidate": int(c_),
+                                "validity": validity, "index_before": old, "index_candidate": new, "returned": bool(r), "fit": summ}))
     return None
 
 
@@ -296,9 +315,11 @@ def main():
         r = cviart_gate(rng)
         if r:
             fails.append(r)
+    gsel = GATE_CASES[:1500] if tier == "quick" else GATE_CASES[:15000]
+    gcodes, gbad = flow.coq_corr("C15g", "RunGate", [g[0] for g in gsel], shard=300, check_fn="gcheck", extra_imports="From ARTcorr Require Import RunBase.\n")
     scodes, sbad = flow.coq_corr("C15", "RunICVI", sstrs, shard=100, check_fn="icheck")
     fcodes, fbad = flow.coq_corr("C15f", "RunICVI", fstrs, shard=60, check_fn="ifcheck")
-    for b in sbad + fbad:
+    for b in sbad + fbad + gbad:
         v.notes.append("coq shard failed: " + b[-600:])
 
     def site(summ, code):
@@ -308,12 +329,13 @@ def main():
         if isinstance(summ, dict) and summ.get("wgss_residue"):
             return "iCVI_CH/wgss-rounding-residue"
         return None
-    flow.decide(v, "C15", gate_ok, ob, list(zip(scodes, ssumm)) + list(zip(fcodes, fsumm)), fails, None, site)
+    flow.decide(v, "C15", gate_ok, ob, list(zip(scodes, ssumm)) + list(zip(fcodes, fsumm)) + list(zip(gcodes, [g[1] for g in gsel])), fails, None, site)
     v.cov.update({
         "evaluations": ns + nf, "distinct_nontrivial": len(set(C.case_hash(s) for s in ssumm)) + len(set(C.case_hash(s) for s in fsumm)),
         "rule": "random add_sample / switch_label sequences (API-permitted: no switch out of a singleton) on 1-3 dimensional k/8 grid points, 2-11 points, labels chosen so that clusters appear late and merge; "
                 "iCVIFuzzyART fits offline and online on complement-coded grid data, 5 modes; CVIART with all three indices; non-trivial = distinct sequence / fit",
-        "traces_validated_against_impl": sum(1 for x in scodes + fcodes if x == 0),
+        "traces_validated_against_impl": sum(1 for x in scodes + fcodes + gcodes if x == 0), "cviart_gate_calls_against_model": len(gsel),
+        "cviart_gate_calls_with_an_index_to_compare": sum(1 for g in gsel if g[1]["index_before"] != 0.0 or g[1]["index_candidate"] != 0.0),
         "non_robust_fits_not_judged": nonrobust, "samples": ssumm[:1]})
     v.assumptions = ["exact-real reading: where the exact within-group dispersion is 0 the index is 0 by convention; binary64 rounding residues are a recorded finding",
                      "fits in which a validity comparison was closer than 1e-9 are not judged against the model (counted as non-robust)",
